@@ -391,13 +391,13 @@ impl P {
                 CA::Multi(it) => {
                     // a multi-character escape cannot start a range; a following '-' that is not
                     // last / subtraction is a disputed position
-                    if self.peek() == Some('-') && !matches!(self.peek_at(1), Some(']') | Some('[')) {
+                    if self.peek() == Some('-') && !matches!(self.peek_at(1), Some(']') | Some('[')) && !self.hyphen_then_subtraction() {
                         self.unsure = Some("hyphen after a multi-character escape".into());
                     }
                     items.push(it)
                 }
                 CA::Single(a, a_is_raw_hyphen) => {
-                    if self.peek() == Some('-') && !matches!(self.peek_at(1), Some(']') | Some('[') | None) {
+                    if self.peek() == Some('-') && !matches!(self.peek_at(1), Some(']') | Some('[') | None) && !self.hyphen_then_subtraction() {
                         // range a-b
                         if a_is_raw_hyphen {
                             self.unsure = Some("unescaped hyphen as range start".into());
@@ -415,7 +415,7 @@ impl P {
                                 }
                                 items.push(ClassItem::Range(a, b));
                                 // "a-b-c": hyphen directly after a range, not last / subtraction
-                                if self.peek() == Some('-') && !matches!(self.peek_at(1), Some(']') | Some('[')) {
+                                if self.peek() == Some('-') && !matches!(self.peek_at(1), Some(']') | Some('[')) && !self.hyphen_then_subtraction() {
                                     self.unsure = Some("hyphen directly after a range".into());
                                 }
                             }
@@ -424,7 +424,7 @@ impl P {
                         if a_is_raw_hyphen && !(items.is_empty() || self.peek() == Some(']') || (self.peek() == Some('-') && self.peek_at(1) == Some('['))) {
                             self.unsure = Some("unescaped hyphen in the middle of a character group".into());
                         }
-                        if a_is_raw_hyphen && (matches!(items.last(), Some(ClassItem::Ch('-'))) || self.peek() == Some('-')) {
+                        if a_is_raw_hyphen && (matches!(items.last(), Some(ClassItem::Ch('-'))) || (self.peek() == Some('-') && self.peek_at(1) != Some('['))) {
                             self.unsure = Some("adjacent unescaped hyphens in a character group".into());
                         }
                         items.push(ClassItem::Ch(a))
@@ -433,6 +433,11 @@ impl P {
             }
         }
         Ok(ClassExpr { neg, items, sub })
+    }
+    /// "--[" ahead: the first hyphen is the last character of the positive group (a literal
+    /// hyphen, legal at the end of a group), the second one introduces the subtraction
+    fn hyphen_then_subtraction(&self) -> bool {
+        self.peek() == Some('-') && self.peek_at(1) == Some('-') && self.peek_at(2) == Some('[')
     }
     fn class_atom(&mut self, _first: bool) -> R<CA> {
         let c = match self.peek() {
